@@ -4,41 +4,77 @@ pub use methods::dispatch as pow;
 
 #[dispatch]
 mod methods {
-    use crate::CelValue;
+    use crate::{CelResult, CelValue};
 
-    fn pow(n1: i64, n2: i64) -> i64 {
-        n1.pow(n2 as u32)
+    fn pow(n1: i64, n2: i64) -> CelResult<i64> {
+        n1.checked_pow(internal::int_exponent(n2)?)
+            .ok_or_else(internal::overflow)
     }
 
-    fn pow(n1: i64, n2: u64) -> i64 {
-        n1.pow(n2 as u32)
+    fn pow(n1: i64, n2: u64) -> CelResult<i64> {
+        n1.checked_pow(internal::uint_exponent(n2)?)
+            .ok_or_else(internal::overflow)
     }
 
-    fn pow(n1: i64, n2: f64) -> i64 {
-        n1.pow(n2 as u32)
+    fn pow(n1: i64, n2: f64) -> CelResult<i64> {
+        n1.checked_pow(internal::float_exponent(n2)?)
+            .ok_or_else(internal::overflow)
     }
 
-    fn pow(n1: u64, n2: i64) -> u64 {
-        n1.pow(n2 as u32)
+    fn pow(n1: u64, n2: i64) -> CelResult<u64> {
+        n1.checked_pow(internal::int_exponent(n2)?)
+            .ok_or_else(internal::overflow)
     }
 
-    fn pow(n1: u64, n2: u64) -> u64 {
-        n1.pow(n2 as u32)
+    fn pow(n1: u64, n2: u64) -> CelResult<u64> {
+        n1.checked_pow(internal::uint_exponent(n2)?)
+            .ok_or_else(internal::overflow)
     }
 
-    fn pow(n1: u64, n2: f64) -> u64 {
-        n1.pow(n2 as u32)
+    fn pow(n1: u64, n2: f64) -> CelResult<u64> {
+        n1.checked_pow(internal::float_exponent(n2)?)
+            .ok_or_else(internal::overflow)
     }
 
     fn pow(n1: f64, n2: i64) -> f64 {
-        n1.powi(n2 as i32)
+        match i32::try_from(n2) {
+            Ok(e) => n1.powi(e),
+            Err(_) => n1.powf(n2 as f64),
+        }
     }
 
     fn pow(n1: f64, n2: u64) -> f64 {
-        n1.powi(n2 as i32)
+        match i32::try_from(n2) {
+            Ok(e) => n1.powi(e),
+            Err(_) => n1.powf(n2 as f64),
+        }
     }
 
     fn pow(n1: f64, n2: f64) -> f64 {
         n1.powf(n2)
+    }
+
+    mod internal {
+        use crate::{CelError, CelResult};
+
+        pub fn int_exponent(n2: i64) -> CelResult<u32> {
+            u32::try_from(n2).map_err(|_| CelError::value("pow() exponent out of range"))
+        }
+
+        pub fn uint_exponent(n2: u64) -> CelResult<u32> {
+            u32::try_from(n2).map_err(|_| CelError::value("pow() exponent out of range"))
+        }
+
+        pub fn float_exponent(n2: f64) -> CelResult<u32> {
+            if n2 >= 0.0 && n2 <= u32::MAX as f64 {
+                Ok(n2 as u32)
+            } else {
+                Err(CelError::value("pow() exponent out of range"))
+            }
+        }
+
+        pub fn overflow() -> CelError {
+            CelError::value("Integer overflow in pow()")
+        }
     }
 }
